@@ -9,6 +9,7 @@ spec on probe states, looking for a register outside the instance's defined regi
 register outside its used registers that influences the result."""
 from harness import rvlib
 from harness import c07_native
+from harness import c07_decode
 
 PROP = "C07"
 LEAN_PROPS = "PpciVerif/Props/C07.lean"
@@ -26,7 +27,11 @@ LEVEL_TEXT = (
     "extra_uses/extra_defs/clobbers set by code generation on call instructions. "
     "x86_64 additionally gets an always-on NATIVE failing-input search WITHOUT any theorem: every instruction class that is "
     "safe to run in isolation is encoded by ppci and executed on the host CPU inside a register-file stub; a register that "
-    "changes outside defined_registers/clobbers, or an undeclared register that influences the result, is reported.")
+    "changes outside defined_registers/clobbers, or an undeclared register that influences the result, is reported. "
+    "arm and thumb are covered by a DISASSEMBLER-BASED search only (no theorem, no emulator): the real bytes are decoded by "
+    "llvm and, for the simple data-processing forms with unambiguous operand roles (mov/mvn, add/sub/and/orr/eor/bic/shifts/"
+    "mul/adc/sbc/rsb, cmp/cmn/tst/teq), llvm's destination and source registers are compared with defined_registers / "
+    "used_registers; everything else is counted as unknown. m68k and mips: nothing.")
 LEVEL_NOTE = (
     "trusted: Lean kernel; Spec.RV32.step (written from the manual, not validated by an emulator — none exists in the "
     "sandbox; its decoder is validated against llvm-mc under C08); translate/c07_annot.py; meaning<->bytes by C08's theorem "
@@ -138,8 +143,9 @@ def check(ctx):
         ctx.sample({"case": list(insts[0][0]), "bytes": insts[0][2].hex(), "used": insts[0][3], "defined": insts[0][4], "probe": probe[0]})
         ctx.sample({"case": list(insts[-1][0]), "bytes": insts[-1][2].hex(), "used": insts[-1][3], "defined": insts[-1][4], "probe": probe[-1]})
     c07_native.check(ctx)
+    c07_decode.check(ctx)
     ctx.extra_cov["exhaustive"] = False
-    ctx.extra_cov["isas_not_covered"] = ["arm", "thumb", "m68k", "mips", "x86_64 (native search only, no theorem)"]
+    ctx.extra_cov["isas_not_covered"] = ["arm (llvm-decode search only)", "thumb (llvm-decode search only)", "m68k", "mips", "x86_64 (native search only, no theorem)"]
 
 
 def replay(ctx, rp):
